@@ -267,11 +267,11 @@ def run(ctx: Ctx):
     nseq = ctx.scale(150, 1500)
     reqs, meta = [], []
     for i in range(nseq):
-        run_sequence(ctx, rng, rng.randint(12, 34 if not ctx.thorough else 70), reqs, meta, exact_env=(i % 4 == 3), pandas_status=(i % 8 == 5))
+        run_sequence(ctx, rng, rng.randint(12, 34 if not ctx.thorough else 70), reqs, meta, exact_env=(i % 4 == 3), pandas_status=(i % 4 == 1))
     for i in range(ctx.scale(12, 120)):
         run_sequence(ctx, rng, 0, reqs, meta, tie=True)
     for i in range(ctx.scale(40, 400)):
-        run_sequence(ctx, rng, 0, reqs, meta, liq=True, exact_env=(i % 4 == 3), pandas_status=(i % 8 == 5))
+        run_sequence(ctx, rng, 0, reqs, meta, liq=True, exact_env=(i % 4 == 3), pandas_status=(i % 4 == 1))
     if ctx.driver_ok:
         outs = driver_json(reqs, exe=A.EXE)
         compare(ctx, reqs, meta, outs)
